@@ -7,6 +7,18 @@ HERE = os.path.dirname(os.path.dirname(os.path.abspath(__file__)))
 ALL = ["C%02d" % i for i in range(1, 21)]
 
 CLAIMED = {
+    "C16": dict(
+        category="model_checking",
+        text=("DualNumbers.tla states the differentiation rules over terms (exact rationals, named real functions); TLC "
+              "checks algebraic design laws on all small rational dual numbers and derives value and derivative terms for "
+              "every generated program.  The real Evaluation types (specialisations 1..12, generic static 13..16, dynamic) "
+              "run each program; every slot is compared with the term evaluated by <cmath>, and the static and dynamic "
+              "variants with each other exactly."),
+        design_ref="DESIGN.md section 5, C16",
+        note=("Trusted: TLC as oracle for the rules, the harness' 40-line term interpreter over <cmath> long double, "
+              "tolerance 2e-10.  Numeric accuracy of libm is not the subject."),
+        technique="TLA+ differentiation rules evaluated by TLC as oracle; replay into all Evaluation variants",
+    ),
     "C17": dict(
         category="model_checking",
         text=("UDQPrec.tla: the parser's recursive-descent levels transcribed and checked by TLC against precedence "
